@@ -2299,6 +2299,9 @@ class Recipe:
                 if isinstance(solvent, Container):
                     self.used.add(solvent.name)
                     self.results[solvent.name], self.results[dest_name] = results
+                    # the solvent container is the source of this step
+                    step.frm = [solvent, self.results[solvent.name]]
+                    step.objects_used.add(solvent.name)
                 else:
                     self.results[dest_name] = results
                 step.substances_used = self.results[dest_name].get_substances()
